@@ -19,7 +19,12 @@ let judge pre a u l e um lm i fails drift =
   if not (ta_same a i) then fail "operand_changed";
   if not (ta_same u (remove_unreachable a)) then dr "unreach";
   if not (ta_same l (remove_useless a)) then dr "useless";
-  if e <> is_lang_empty a then dr "empty"
+  if e <> is_lang_empty a then dr "empty";
+  (* (A) the counter algorithm of RemoveUselessStates (work list + one counter per rule): the states it marks = the productive states *)
+  (match productive_count a (nat_of_int (4 + 2 * List.length a.rules)) with
+   | Some m -> let p = productive a in
+               if not (List.for_all (fun x -> List.mem x p) m && List.for_all (fun x -> List.mem x m) p) then dr "count_model"
+   | None -> dr "count_model_fuel")
 
 let () = each_line (fun l0 ->
   let (c, o) = split_bar l0 in
